@@ -700,6 +700,10 @@ class PermitRun:
             self.v("stuck", f"would block forever: {sim.error}; pending acquires={sorted(self.model.pending) if self.model else None}")
         elif sim.outcome == "itercap":
             self.v("stuck", f"iteration cap: {sim.error}")
+        elif sim.outcome == "exc":
+            import traceback
+            tb = "".join(traceback.format_exception(sim.error))[-1500:]
+            self.v("error", f"unexpected exception out of legitimate API use: {sim.error!r}\n{tb}")
         loop = sim.loop
         return {"violations": self.viol, "digest": self.h.digest(), "faults": dict(self.faults),
                 "nontrivial": self.nontrivial, "vtime": loop._vnow if loop else 0.0,
